@@ -412,6 +412,31 @@ type childrener interface{ GetChildren() []mp4.Box }
 
 // SizeAtEveryNode checks, for b and every descendant reachable through GetChildren, that Encode writes
 // Size() bytes and that the first size field written equals the number of bytes written (C02).
+// QuotaWriter accepts Left bytes, then fails for good (partial write reported with the error, as io.Writer demands).
+type QuotaWriter struct {
+	Left    int
+	N       int
+	faulted bool
+}
+
+var errQuota = fmt.Errorf("quota writer: no room")
+
+func (q *QuotaWriter) Write(p []byte) (int, error) {
+	if q.faulted {
+		return 0, errQuota
+	}
+	if len(p) > q.Left {
+		n := q.Left
+		q.N += n
+		q.Left = 0
+		q.faulted = true
+		return n, errQuota
+	}
+	q.Left -= len(p)
+	q.N += len(p)
+	return len(p), nil
+}
+
 func SizeAtEveryNode(b mp4.Box, path string, witness string, fails *[]Fail, evals *int) {
 	*evals++
 	szBefore, p := SafeSize(b)
@@ -451,6 +476,27 @@ func SizeAtEveryNode(b mp4.Box, path string, witness string, fails *[]Fail, eval
 		out3, oc3, _ := EncodeW(b)
 		if oc3 != "ok" || !bytes.Equal(out, out3) {
 			*fails = append(*fails, Fail{b.Type(), "encode-twice-differs", witness, path + ": second Encode gives different bytes"})
+		}
+	}
+	// Encode into writers that fail after k < Size() bytes: success must not be reported for an output that lost bytes
+	if oc == "ok" && len(out) > 0 && len(out) < 1<<20 {
+		for _, k := range []int{0, 7, 8, 12, len(out) / 2, len(out) - 1} {
+			if k < 0 || k >= len(out) {
+				continue
+			}
+			q := &QuotaWriter{Left: k}
+			var e error
+			pq := hx.Try(func() { e = b.Encode(q) })
+			if pq != "" {
+				*fails = append(*fails, Fail{b.Type(), "encode-panic", witness,
+					fmt.Sprintf("%s: Encode into a writer that fails after %d bytes panics: %s", path, k, pq)})
+				break
+			}
+			if e == nil {
+				*fails = append(*fails, Fail{b.Type(), "encode-success-after-writer-fault", witness,
+					fmt.Sprintf("%s: Encode into a writer that fails after %d of %d bytes reports success (%d bytes written)", path, k, len(out), q.N)})
+				break
+			}
 		}
 	}
 	// EncodeSW into a writer with spare room (independently of whether the exactly-sized Encode succeeded): an
